@@ -1522,6 +1522,120 @@ func (sc *scenario) runLongPrefix() {
 	}
 }
 
+// profile "pool" (C11), structured part: the income hand-over constellation, repeated — wallet X holds a confirmed
+// yielding output y and a confirmed plain output pl; pooled in this order: A (X releases y), B (X spends pl into a NEW
+// yielding output for X: admissible only after A), C (an unrelated valid transaction); then the on-schedule tick.
+// Whatever the shuffle (B tried before A is refused at its turn), C belongs in the block.
+func (sc *scenario) runHandover() {
+	r := sc.rng
+	w := sc.w
+	S := w.S
+	n := w.Nodes[0]
+	sc.clock = T0
+	w.Tick(n, sc.clock)
+	tick := func() {
+		sc.clock = n.Chain.LastBlockTimestamp() + S.Interval
+		if v := w.Tick(n, sc.clock); v.Info["included"] != "0" && v.Info["included"] != "" {
+			sc.mark("block-with-tx")
+		}
+	}
+	tick()
+	tick()
+	submit := func(sp []node.Spend, o []node.RawOutput) bool {
+		tx, _, err := node.MakeTx(sp, o, n.Chain.LastBlockTimestamp())
+		if err != nil {
+			return false
+		}
+		ok := w.Submit(n, tx).Info["submit"] == "admitted"
+		if ok {
+			sc.mark("admitted")
+		}
+		return ok
+	}
+	for rep := 0; rep < 7 && w.Continue(); rep++ {
+		next := n.Chain.LastBlockTimestamp() + S.Interval
+		var y, pl *utxoRef
+		conf := sc.confirmed(n)
+		for i := range conf {
+			if conf[i].u.IsYielding() && sc.value(conf[i].u, next) > 4*S.MinFee+8 {
+				y = &conf[i]
+				break
+			}
+		}
+		if y == nil {
+			return
+		}
+		for i := range conf {
+			if conf[i].owner == y.owner && !conf[i].u.IsYielding() && sc.value(conf[i].u, next) > 2*S.MinFee+4 {
+				pl = &conf[i]
+				break
+			}
+		}
+		vy := sc.value(y.u, next)
+		if pl == nil {
+			// set-up: split y into a plain and a yielding output of X, confirm, start over
+			rem := vy - S.MinFee
+			var o2 *node.Wallet
+			for _, c := range w.Wallets {
+				if c != y.owner {
+					o2 = c
+					break
+				}
+			}
+			if o2 == nil {
+				return
+			}
+			if !submit([]node.Spend{{TxId: y.u.TransactionId(), Index: y.u.OutputIndex(), By: y.owner}},
+				[]node.RawOutput{{Address: y.owner.Address, Value: rem / 3}, {Address: o2.Address, Value: rem / 3}, {Address: y.owner.Address, IsYielding: true, Value: rem - 2*(rem/3)}}) {
+				return
+			}
+			tick()
+			tick()
+			continue
+		}
+		vp := sc.value(pl.u, next)
+		var other *node.Wallet
+		for _, c := range w.Wallets {
+			if c != y.owner {
+				other = c
+				break
+			}
+		}
+		if other == nil {
+			return
+		}
+		okA := submit([]node.Spend{{TxId: y.u.TransactionId(), Index: y.u.OutputIndex(), By: y.owner}},
+			[]node.RawOutput{{Address: other.Address, Value: (vy - S.MinFee) / 2}, {Address: y.owner.Address, Value: vy - S.MinFee - (vy-S.MinFee)/2}})
+		okB := okA && submit([]node.Spend{{TxId: pl.u.TransactionId(), Index: pl.u.OutputIndex(), By: pl.owner}},
+			[]node.RawOutput{{Address: y.owner.Address, IsYielding: true, Value: (vp - S.MinFee) / 2}, {Address: y.owner.Address, Value: vp - S.MinFee - (vp-S.MinFee)/2}})
+		if okB {
+			w.Hist["handover:A+B"]++
+			// C: the most valuable confirmed output that is neither y nor pl, spent by its owner
+			var c *utxoRef
+			for i := range conf {
+				u := &conf[i]
+				if u.u == y.u || u.u == pl.u || sc.value(u.u, next) <= 2*S.MinFee+2 {
+					continue
+				}
+				if c == nil || sc.value(u.u, next) > sc.value(c.u, next) {
+					c = u
+				}
+			}
+			if c != nil && r.Intn(8) != 0 {
+				vc := sc.value(c.u, next)
+				if submit([]node.Spend{{TxId: c.u.TransactionId(), Index: c.u.OutputIndex(), By: c.owner}},
+					[]node.RawOutput{{Address: other.Address, Value: (vc - S.MinFee) / 2}, {Address: c.owner.Address, Value: vc - S.MinFee - (vc-S.MinFee)/2}}) {
+					w.Hist["handover:A+B+C"]++
+				}
+			} else if c == nil {
+				w.Hist["handover:C→none"]++
+			}
+		}
+		tick()
+		tick()
+	}
+}
+
 // profiles "shape" (C04) and "alias" (C12), structured part: three honest nodes share one long chain (lengths around
 // Go's allocation size classes); one produces the next block; another is offered, in both orders, the neighbour that is
 // one block ahead and the neighbour that is level with it — the candidate of the first must survive the verification
@@ -1817,6 +1931,7 @@ func main() {
 		case "fork", "alias":
 			nn = 3
 		}
+		handover := *profile == "pool" && rng.Intn(5) == 0
 		oneAhead := (*profile == "shape" || *profile == "alias") && rng.Intn(8) == 0
 		if oneAhead {
 			nn = 3
@@ -1833,6 +1948,10 @@ func main() {
 		sc := &scenario{w: w, rng: rng, profile: *profile, nontriv: map[string]bool{}}
 		ops := 10 + rng.Intn(*maxOps-9)
 		switch {
+		case handover:
+			sc.runHandover()
+			w.Close()
+			goto done
 		case oneAhead:
 			sc.runOneAhead()
 			w.Close()
